@@ -352,6 +352,11 @@ impl<'tcx> Cx<'tcx> {
                         if let Some(a) = active {
                             v.push(("union_field", J::N(a.index() as i128)));
                         }
+                        if adt.is_enum() {
+                            let d = adt.discriminant_for_variant(self.tcx, *vi);
+                            v.push(("discr_bits", s(format!("{}", d.val))));
+                            v.push(("discr_ty", s(self.ty(d.ty))));
+                        }
                     }
                     AggregateKind::Closure(did, _) => {
                         v.push(("agg", s("closure")));
